@@ -36,3 +36,29 @@
 (define-fun envFrom30 ((ik Int) (c CVSS30)) Int
   (ite (<= (mimpact30 c) 0.0) 0 (roundup10 (* (/ (to_real ik) 10.0) (tw30 c)))))
 (define-fun env30K ((c CVSS30)) Int (envFrom30 (envInner30K c) c))
+
+; ---- ParseVector (C01, C06, C13, C18): reference fold over the '/'-separated elements ----
+; State: which metrics were seen, and the code stored for each.  Elements are processed left to right;
+; the first defect decides the error.  (seen, vals) are indexed by the metric's position in the spec.
+(declare-datatypes ((PRes30 0)) (((mk-pres30 (p.err Err) (p.seen (Array Int Bool)) (p.vals (Array Int (_ BitVec 8)))))))
+(define-fun noneSeen () (Array Int Bool) ((as const (Array Int Bool)) false))
+(define-fun noVals () (Array Int (_ BitVec 8)) ((as const (Array Int (_ BitVec 8))) #x00))
+; fold30 is a recursive definition (measure: (s.len v) + 1 - s, which decreases because nextsep v s >= s).
+; It is given to the solvers as an uninterpreted function plus its defining equation fold30_def, which
+; the proofs instantiate explicitly (assume_def clauses in the contracts) where an unfolding is needed.
+(declare-fun fold30 (Str Int (Array Int Bool) (Array Int (_ BitVec 8))) PRes30)
+(define-fun fold30_def ((v Str) (s Int) (seen (Array Int Bool)) (vals (Array Int (_ BitVec 8)))) Bool
+  (= (fold30 v s seen vals)
+  (ite (or (< s 0) (> s (s.len v))) (mk-pres30 Nil seen vals)
+  (let ((el (substr v s (nextsep v s))))
+  (let ((m (midx30 (elemkey el))))
+  (ite (< m 0) (mk-pres30 (PErr T_ErrInvalidMetric (elemkey el)) seen vals)
+  (ite (select seen m) (mk-pres30 (PErr T_ErrDefinedN (elemkey el)) seen vals)
+  (ite (= (vcode30 m (elemval el)) #xff) (mk-pres30 ErrInvalidMetricValue seen vals)
+  (fold30 v (+ (nextsep v s) 1) (store seen m true) (store vals m (vcode30 m (elemval el))))))))))))
+(define-fun parseRes30 ((vector Str)) PRes30
+  (ite (not (hasHeader30 vector)) (mk-pres30 ErrInvalidCVSSHeader noneSeen noVals)
+  (let ((r (fold30 (substr vector HDRLEN30 (s.len vector)) 0 noneSeen noVals)))
+  (ite (not (= (p.err r) Nil)) r
+  (ite (>= (firstMissing30 (p.seen r)) 0) (mk-pres30 (PErr T_ErrMissing (vname30 (firstMissing30 (p.seen r)))) (p.seen r) (p.vals r))
+  r)))))
